@@ -103,7 +103,147 @@ func checkC18(c *Ctx) {
 		rng := c.Rng("c18", i)
 		c.ledgerSequence(i, rng)
 	})
-	c.Require("commits", "historical-reads", "reopens", "recreate-after-delete")
+	// process-lifetime sweep: far more distinct keys than any plausible cache bound are read within one commit
+	// interval while writes are pending; the pending writes must stay visible and must be what is committed
+	sweeps := []int{80000}
+	if !c.Quick() {
+		sweeps = []int{3000, 80000, 150000, 300000}
+	}
+	c.Parallel(len(sweeps), 4, func(j int) { c.ledgerCacheSweep(900000+j, sweeps[j], c.Rng("c18sweep", j)) })
+	c.Require("commits", "historical-reads", "reopens", "recreate-after-delete", "cache-sweep-reads")
+}
+
+func (c *Ctx) ledgerCacheSweep(i, nKeys int, rng *rand.Rand) {
+	dir := c.DirI(i, fmt.Sprintf("c18-sweep-%d", i))
+	defer os.RemoveAll(dir)
+	mk := func() *kvItem { return &kvItem{} }
+	l, xerr := ledger.NewFinalityLedger[*kvItem]("c18", dir, 128, mk)
+	if xerr != nil {
+		c.Inconclusive(xerr.Error())
+		return
+	}
+	defer func() { _ = l.Close() }()
+	bad := func(sig, msg string) {
+		c.Violation(i, "ledger-model-mismatch:"+sig, fmt.Sprintf("cache sweep over %d keys: %s", nKeys, msg), map[string]interface{}{"keys": nKeys})
+	}
+	defer func() {
+		if r := recover(); r != nil {
+			bad("panic", fmt.Sprint("panic: ", r))
+		}
+	}()
+	key := func(n int) ledger.LedgerKey {
+		var k ledger.LedgerKey
+		copy(k[:], sha256sum([]byte(fmt.Sprint("sweep", i, n))))
+		return k
+	}
+	// population: committed in slices
+	for n := 0; n < nKeys; n++ {
+		_ = l.SetFinality(&kvItem{K: key(n), V: fmt.Sprintf("p%d", n)})
+		if n%20000 == 19999 || n == nKeys-1 {
+			if _, _, xerr := l.Commit(); xerr != nil {
+				bad("commit", xerr.Error())
+				return
+			}
+			c.Count("commits", 1)
+		}
+	}
+	// a fresh process view of the store: caches start empty
+	_ = l.Close()
+	if l, xerr = ledger.NewFinalityLedger[*kvItem]("c18", dir, 128, mk); xerr != nil {
+		c.Inconclusive(xerr.Error())
+		return
+	}
+	c.Count("reopens", 1)
+	for round := 0; round < 2; round++ {
+		// pending writes of this interval: changed keys, a new key, a deleted key, a mempool-overlay write
+		pend := map[int]string{}
+		for _, n := range []int{0, 1, nKeys / 2, nKeys - 1} {
+			v := fmt.Sprintf("w%d-%d", round, n)
+			if it, xerr := l.GetFinality(key(n)); xerr != nil {
+				bad("sweep-get", fmt.Sprintf("GetFinality(k%d): %v", n, xerr))
+				return
+			} else {
+				it.V = v // the usual pattern: look up, modify, set
+				_ = l.SetFinality(it)
+			}
+			pend[n] = v
+		}
+		newK := key(nKeys + 1 + round)
+		_ = l.SetFinality(&kvItem{K: newK, V: "fresh"})
+		delN := 2 + round
+		if _, xerr := l.DelFinality(key(delN)); xerr != nil {
+			bad("sweep-del", xerr.Error())
+			return
+		}
+		_ = l.Set(&kvItem{K: key(7), V: "mempool-only"})
+		verify := func(at int) bool {
+			for n, v := range pend {
+				it, xerr := l.GetFinality(key(n))
+				if xerr != nil || it.V != v {
+					got := "not found"
+					if xerr == nil {
+						got = it.V
+					}
+					bad("pending-write-lost-after-many-reads", fmt.Sprintf("after reading %d other keys in the same commit interval GetFinality(k%d) returns %s, pending write is %s", at, n, got, v))
+					return false
+				}
+			}
+			if it, xerr := l.GetFinality(newK); xerr != nil || it.V != "fresh" {
+				bad("pending-write-lost-after-many-reads", fmt.Sprintf("after reading %d other keys the key created in this interval is gone", at))
+				return false
+			}
+			if _, xerr := l.GetFinality(key(delN)); xerr == nil {
+				bad("pending-delete-lost-after-many-reads", fmt.Sprintf("after reading %d other keys the key deleted in this interval is back", at))
+				return false
+			}
+			if it, xerr := l.Get(key(7)); xerr != nil || it.V != "mempool-only" {
+				bad("mempool-write-lost-after-many-reads", fmt.Sprintf("after reading %d other keys the mempool overlay lost its pending write", at))
+				return false
+			}
+			return true
+		}
+		step := 1
+		for n := 10; n < nKeys; n += step {
+			it, xerr := l.GetFinality(key(n))
+			if _, isPend := pend[n]; !isPend && (xerr != nil || it.V != fmt.Sprintf("p%d", n)) && !(round == 1 && n == 2) {
+				bad("sweep-get", fmt.Sprintf("GetFinality(k%d) = %v, %v", n, it, xerr))
+				return
+			}
+			if n%3 == 0 {
+				_, _ = l.Get(key(n)) // the mempool overlay's cache fills as well
+			}
+			c.Count("cache-sweep-reads", 1)
+			if n%997 == 0 && !verify(n) {
+				return
+			}
+		}
+		if !verify(nKeys) {
+			return
+		}
+		if _, _, xerr := l.Commit(); xerr != nil {
+			bad("commit", xerr.Error())
+			return
+		}
+		c.Count("commits", 1)
+		// what was committed is the pending state
+		for n, v := range pend {
+			if it, xerr := l.Read(key(n)); xerr != nil || it.V != v {
+				bad("commit-lost-pending-write", fmt.Sprintf("after the commit Read(k%d) = %v, %v; written %s", n, it, xerr, v))
+				return
+			}
+		}
+		if _, xerr := l.Read(key(delN)); xerr == nil {
+			bad("commit-lost-pending-delete", "the key deleted in the interval is in the committed version")
+			return
+		}
+		if it, xerr := l.Read(key(7)); xerr != nil || it.V == "mempool-only" {
+			bad("mempool-write-committed", "a mempool-overlay write reached the committed version")
+			return
+		}
+		c.Eval(1)
+	}
+	c.Distinct(fmt.Sprintf("sweep/%d", nKeys))
+	c.Count("cache-sweeps", 1)
 }
 
 func (c *Ctx) ledgerSequence(i int, rng *rand.Rand) {
